@@ -264,6 +264,8 @@ def oracle(c, r):
         lo, hi = r["new"]
         if (lo, hi) != (min(a, b), max(a, b)):
             yield ("interval-order", "Interval::new(%r, %r) = [%r, %r]" % (a, b, lo, hi))
+        if r["try"] is None or tuple(r["try"]) != (min(a, b), max(a, b)):
+            yield ("interval-order", "Interval::try_new(%r, %r) = %r, the bounds in order are [%r, %r]" % (a, b, r["try"], min(a, b), max(a, b)))
         olo, ohi = r["o"]
         if r["contains"] != (lo <= x <= hi):
             yield ("interval-contains", "[%r,%r].contains(%r) = %r" % (lo, hi, x, r["contains"]))
